@@ -93,6 +93,7 @@ type Runner struct {
 	busy    int
 	results map[string]*HarnessResult
 	stopped bool
+
 }
 
 func (r *Runner) Run(harnesses []*ssa.Function) map[string]*HarnessResult {
@@ -182,25 +183,52 @@ func (r *Runner) worker() {
 	}
 }
 
+// needWitness: a model of a completed path is only solved for while the harness still lacks witnesses
+// (of this shape)
+func (r *Runner) needWitness(h string, choices map[string]int) bool {
+	r.mu.Lock()
+	defer r.mu.Unlock()
+	hr := r.results[h]
+	if len(hr.Witnesses) >= r.cfg.Witnesses {
+		return false
+	}
+	return !hr.witSig[fmt.Sprint(choices)]
+}
+
 func (r *Runner) runPath(solver *Solver, tt *TermTable, j job) (st *Stats, pending [][]int, viol []Violation, witness *Violation, inconclusive []string) {
 	st = newStats()
 	e := &Exec{prog: r.prog, tt: tt, solver: solver, globals: map[*ssa.Global]*Cell{}, prefix: j.prefix,
 		st: st, choices: map[string]int{}, cfg: r.cfg, pcSet: map[*Term]bool{}, inSeen: map[string]bool{}, harness: j.fn.Name()}
-	e.lenient = true
+	// package initialisers are deterministic and concrete: run them once per term table and give every
+	// path its own deep copy of the resulting globals
 	tInit := time.Now()
-	func() {
-		defer func() {
-			if rec := recover(); rec != nil {
-				inconclusive = append(inconclusive, fmt.Sprintf("package init: %v", rec))
+	if snap, _ := tt.snap.(map[*ssa.Global]*Cell); snap != nil {
+		cl := newCloner()
+		for g, c := range snap {
+			e.globals[g] = cl.cell(c)
+		}
+	} else {
+		e.lenient = true
+		func() {
+			defer func() {
+				if rec := recover(); rec != nil {
+					inconclusive = append(inconclusive, fmt.Sprintf("package init: %v", rec))
+				}
+			}()
+			for _, p := range initOrder {
+				if pkg := r.prog.ImportedPackage(p); pkg != nil {
+					e.Call(pkg.Func("init"), nil, nil)
+				}
 			}
 		}()
-		for _, p := range initOrder {
-			if pkg := r.prog.ImportedPackage(p); pkg != nil {
-				e.Call(pkg.Func("init"), nil, nil)
-			}
+		e.lenient = false
+		cl := newCloner()
+		snap := map[*ssa.Global]*Cell{}
+		for g, c := range e.globals {
+			snap[g] = cl.cell(c)
 		}
-	}()
-	e.lenient = false
+		tt.snap = snap
+	}
 	if os.Getenv("SYMGO_TIMING") != "" {
 		logf("init: %v steps=%d", time.Since(tInit), e.steps)
 	}
@@ -226,7 +254,7 @@ func (r *Runner) runPath(solver *Solver, tt *TermTable, j job) (st *Stats, pendi
 			}
 			st.Completed++
 			// witness: a model of this completed path, replayed natively as a validation of encoder and stubs
-			if r.cfg.Witnesses > 0 {
+			if r.needWitness(j.fn.Name(), e.choices) {
 				res, model := solver.Check(e.pc, e.inputs)
 				st.Queries++
 				if res == "sat" {
